@@ -151,6 +151,43 @@ def _gen_constants():
     return True, ""
 
 
+def gen_src():
+    """Regenerate Gen/Src.lean (IR of /repo's static-inline primitives, harness/gen/gen_src.py) from the working tree.
+    Returns (ok, log, info) – ok False when a listed function left the translatable subset or the constants do not
+    compile; info = {"translated": n, "untranslated": [...]}"""
+    import fcntl
+    ensure_dirs()
+    lockf = open(os.path.join(BUILD, "lake.lock"), "w")
+    fcntl.flock(lockf, fcntl.LOCK_EX)
+    try:
+        gen = os.path.join(HARN, "gen", "gen_src.py")
+        tmp_lean = os.path.join(BUILD, "Src.lean.gen")
+        c_file = os.path.join(BUILD, "gen_src_consts.c")
+        txt = os.path.join(BUILD, "gen_src_consts.txt")
+        rc, out, err = sh2([sys.executable, gen, tmp_lean, c_file], timeout=120)
+        if rc != 0:
+            return False, "gen_src.py pass 1 failed: " + out + err, {}
+        ok, log = cc("gen_src_consts", [c_file], ["-w"])
+        if not ok:
+            return False, "constants / zero-offset assertions of gen_src do not compile against /repo:\n" + log, {}
+        rc, out, err2 = sh2([os.path.join(BUILD, "gen_src_consts")], timeout=60)
+        if rc != 0:
+            return False, "gen_src_consts failed", {}
+        with open(txt, "w") as f:
+            f.write(out)
+        rc, out, err = sh2([sys.executable, gen, tmp_lean, c_file, txt], timeout=120)
+        if rc != 0:
+            return False, "gen_src.py pass 2 failed: " + out + err, {}
+        text = open(tmp_lean).read()
+        write_if_changed(os.path.join(LEAN, "UrcuVerif", "Gen", "Src.lean"), text)
+        un = [l for l in err.splitlines() if l.startswith("gen_src:")]
+        info = {"translated": text.count("\ndef «") // 2, "untranslated": un}
+        return (not un), "\n".join(un), info
+    finally:
+        fcntl.flock(lockf, fcntl.LOCK_UN)
+        lockf.close()
+
+
 _lake_lock = None
 
 
